@@ -127,3 +127,9 @@ mod tests {
     #[cfg(not(unix))]
     normalize!(normal4, b"foo\\bar/baz", b"foo/bar/baz");
 }
+
+#[cfg(kani)]
+mod verif_kani {
+    use super::*;
+    include!(concat!(env!("RG_VERIF_KANI_DIR"), "/globset/pathutil.rs"));
+}
